@@ -168,7 +168,7 @@ pub fn run(ctx: &Ctx) -> Report {
     run_enumerated(&mut sec, enumerated(), ctx.workers, check, |_, _| "c14:encoding".into());
     rep.sections.push(sec);
     let mut sec = Section::new(&format!("generated[{}]", ctx.variant), "start value x setter words up to length 10");
-    run_generated(&mut sec, ctx.seed, ctx.cases(100_000, 2_000_000), ctx.workers, strategy, check, |_, _| "c14:encoding".into());
+    run_generated(&mut sec, ctx.seed, ctx.cases(300_000, 6_000_000), ctx.workers, strategy, check, |_, _| "c14:encoding".into());
     rep.sections.push(sec);
     rep
 }
